@@ -13,7 +13,9 @@ CHECKS = {
         text=("Every schedule with <= d deviations (d=1..2 quick, 2..3 thorough) from the default schedule of a closed harness "
               "(1 writer running 1-2 sessions that each write A and B, commit or drop; 1-2 readers looping tracked/query/drop; roots plain, "
               "behind a firewall, behind firewall+projection) is executed on the real engine; each reader's (A,B,root) must be exactly one "
-              "committed snapshot within its hand-out window and the final state must be the last snapshot. Exhaustive within the bound, "
+              "committed snapshot within its hand-out window and the final state must be the last snapshot; variants with a reader's recomputation in "
+              "flight while the next session is opened, and over DbBacked<MemKv> with a clean shutdown and a new engine on the same store that must "
+              "show the last snapshot. Exhaustive within the bound, "
               "so it reaches the windows between epoch bump, phase lock and epoch sampling that no test enters."),
         design_ref="DESIGN.md 4/C04",
         note=("Interleavings at lock/await/storage-access/atomic granularity of <=3 tasks with <=d deviations; real parallelism, weak memory, "
